@@ -150,6 +150,39 @@ Example C07_nonvacuous :
 Proof. vm_compute. repeat split. Qed.
 Print Assumptions C07_nonvacuous.
 
+(* ---- several loaded models: PlainName searches only the model that contains the referring object
+        (the translated root of the search is get_model(obj); C05_get_model: that is the root of the
+        containment tree the object is in).  The outcome is a function of that model alone, and a same-named,
+        type-conforming object of another loaded (imported) model is NOT a candidate. *)
+Theorem C07_same_model_only : forall classes world world' i b r,
+  nth i world empty_model = nth i world' empty_model ->
+  resolve_in classes world i b r = resolve_in classes world' i b r.
+Proof. exact same_model_only. Qed.
+Print Assumptions C07_same_model_only.
+
+Theorem C07_imported_not_candidate : forall classes world i j b r p d,
+  wf_classes classes = true -> j <> i ->
+  Cand classes (nth j world empty_model) (rname r) (rcls r) p d ->
+  NoCand classes (nth i world empty_model) (rname r) (rcls r) ->
+  (forall q, resolve_in classes world i b r <> Resolved q) /\
+  (resolve_in classes world i b r = Builtin (rname r) \/
+   resolve_in classes world i b r = ErrUnknown (rname r) (rcls r)).
+Proof. exact imported_not_candidate. Qed.
+Print Assumptions C07_imported_not_candidate.
+
+Example C07_imported_nonvacuous :
+  (* model 0 refers to "z" of class K0; only model 1 (ex_root) has a K0 named "z" *)
+  let world := [Node 4 NoName [Node 2 (NameStr [114]%N) []]; ex_root] in
+  Cand ex_classes (nth 1 world empty_model) [122]%N 1 [2]%nat (Node 1 (NameStr [122]%N) []) /\
+  resolve_in ex_classes world 0 ex_builtins {| rname := [122]%N; rcls := 1 |} = ErrUnknown [122]%N 1 /\
+  resolve_in ex_classes world 1 ex_builtins {| rname := [122]%N; rcls := 1 |} = Resolved [2]%nat.
+Proof.
+  split; [|split; reflexivity].
+  split; [cbn; eapply AtKid; [reflexivity | apply AtHere]|].
+  split; [reflexivity|]. exists 1. split; [apply ReachRefl | reflexivity].
+Qed.
+Print Assumptions C07_imported_nonvacuous.
+
 (* ---- bridges to the models of the neighbouring properties (imported read-only) *)
 
 (* C03's model of _determine_rule_types (Model/Kinds.v, tied to textx/lang.py by kinds_tr.py): for EVERY grammar
